@@ -101,6 +101,8 @@ def raw_cases(rng, n):
             for w in ((0, 1), (1, 2)):
                 if len(again) == 2 or True:
                     fixed.append(("un", ("slice", w[0], w[1]), mp.DEFAULT, ("un", ("sort", again), mp.DEFAULT, first)))
+    fixed += sp.fixed_window_cases()
+    n += len(fixed)
     for k in range(n):
         p, cols, ordered = sp.gen_sqlprog(rng, rng.choice([1, 2, 3, 4, 5]))
         if k < len(fixed):
